@@ -199,6 +199,14 @@ def gen_for(stream, seed):
         sc = scen.gen_scenario(seed, "shocked", types=["rebuild", "recovery"], nev=rng.choice([1, 2]), T=rng.choice([12, 20]))
         mf = sc["model"]["monetary_factor"]
         for ev in sc["events"]:
+            if ev["type"] == "recovery" and rng.random() < 0.5:
+                # a fast geometric recovery: within the run the remaining damage goes through many orders of magnitude,
+                # down to the rounding quantum of the model's unit (and nothing but that quantum may cut the tail)
+                ev["curve"] = rng.choice(["convexe", "convexe noscale"])
+                ev["recovery_tau"] = rng.choice([2, 3])
+                ev["dur"] = 1
+                ev["occ"] = min(ev["occ"], 3)
+        for ev in sc["events"]:
             if ev["type"] == "arbitrary":
                 continue
             new = rng.choice([1, 10**3, 10**6, 800, 2_500_000, 921.3])       # (921.3: thousands of another currency)
@@ -287,7 +295,18 @@ def exhaustive_scenarios(pid):
 def explore(pid, tier, seed, replay=None):
     if pid in ("C12", "C15", "C16", "C17"):
         from harness import special
-        return getattr(special, "explore_" + pid.lower())(tier, seed)
+        try:
+            return getattr(special, "explore_" + pid.lower())(tier, seed)
+        except Exception as e:
+            # the exploration itself broke on this tree: on the unchanged tree it does not, so the code no longer behaves
+            # as the harness (written against the documented behaviour) expects — a broken correspondence, not an
+            # infrastructure failure
+            import traceback
+            res = special.new_result(pid)
+            res["corr_obligations"] = 1
+            res["mismatches"].append({"phase": "exploration", "what": f"the exploration raised {type(e).__name__}: {str(e)[:200]}",
+                                      "traceback": traceback.format_exc()[-1500:]})
+            return res
     res = {"violations": [], "known": [], "mismatches": [], "corr_obligations": 0, "corr_ok": 0, "scenarios": 0, "steps": 0,
            "nontrivial": 0, "rule": "", "samples": [], "distribution": {}, "branches": {}, "ties": {}, "corpus": {},
            "paired_runs": 0}
